@@ -429,13 +429,10 @@ func (p *parser) countCaptures() error {
 								if err != nil {
 									return err
 								}
-								if p.maintainCaptureOrder {
-									if err = p.noteCaptureName(strconv.Itoa(dec), pos); err != nil {
-										return err
-									}
-								} else {
-									p.noteCaptureSlot(dec, pos)
-								}
+								// an explicitly numbered group keeps its number, also in pattern order;
+								// consumeCaptureSlot keeps this pass in step with scanGroupOpen.
+								p.noteCaptureSlot(dec, pos)
+								p.consumeCaptureSlot(dec)
 							} else {
 								capname, err := p.scanCapname()
 								if err != nil {
